@@ -316,8 +316,8 @@ MANIFEST_TEXT = {
         "technique": "Lean 4 proof of the rewrite's frame at table level + byte-level differential check against an independent walker",
     },
     "C05": {
-        "text": "Lean theorems (decision logic stated outright): a chunk-offset table is accepted iff version/flags are zero, the count exactly fills the box and the table is below 4 GiB, with the error kind of each violation; after the scan missing ftyp/moov/mdat is MissingRequiredBox and 'nothing to do' is returned iff the last moov starts before the first mdat; ftyp payloads below 8 bytes are TruncatedBox. Spec_C05 (accepted iff Rules and not an overflow refusal; no-op iff moov first), written over the independent walker, is evaluated on the real code over exhaustive top-level layouts, header pathologies, every moov-tree rule broken in turn and truncations, for both reader kinds.",
-        "note": "Partial: the equivalence accepted <-> Rules is not yet a theorem; it is decided per generated case on the implementation. The check found defect F1 (see C03). Trusted: as C01.",
+        "text": "Lean theorems C05_accept_top_rules / C05_nometadata_iff (soundness of the top-level rules, for EVERY stream, configuration and cursor kind): whenever the model of sanitize returns a result, the INDEPENDENT walker finds a clean sequence of complete top-level boxes in which only free/skip precede the single ftyp, the ftyp payload has 8..1024 bytes and lists the isom brand, every box is ftyp/moov/mdat/free/skip/meta/meco, at least one moov (payload within max_metadata_size) and one mdat exist and every mdat lies in the one media run - and no metadata is returned exactly when the Spec's NoMetadata holds (last moov before first mdat). Proved with the relational program logic (Lemmas/Tri.lean, ScanRel.lean, TopRel.lean: the scan loop refines a top-level state machine over the walker's boxes) and list lemmas. Further (decision logic stated outright): a chunk-offset table is accepted iff version/flags are zero, the count exactly fills the box and the table is below 4 GiB, with the error kind of each violation; after the scan missing ftyp/moov/mdat is MissingRequiredBox and 'nothing to do' is returned iff the last moov starts before the first mdat; ftyp payloads below 8 bytes are TruncatedBox. Spec_C05 (accepted iff Rules and not an overflow refusal; no-op iff moov first), written over the independent walker, is evaluated on the real code over exhaustive top-level layouts, header pathologies, every moov-tree rule broken in turn and truncations, for both reader kinds.",
+        "note": "Partial: the top-level half of accepted -> Rules is a theorem; the moov-tree clause of the rules and the converse (every file meeting the rules is accepted unless a rewrite overflows) are decided per generated case on the implementation. The check found defect F1 (see C03). Trusted: as C01.",
         "technique": "Lean 4 proof of the component decisions + exhaustive small-layout differential check against a declarative rule set",
     },
     "C01": {
